@@ -661,9 +661,16 @@ fn attempt_once(v: &Scenario, p: &Plan, degraded: bool, deadline: Duration) -> A
             Ok(()) => {
                 // either this kernel takes 300 segments (then they arrive) or an error was lost
                 return match drain(&rx, &[65536], junk.len(), junk.len(), 400, deadline) {
-                    Ok(d) if d.gots.iter().map(|g| g.meta.len).sum::<usize>() == junk.len() => {
+                    // (the segments are one byte each: anything longer than its stride is a merged datagram)
+                    Ok(d) if d.gots.iter().map(|g| g.meta.len).sum::<usize>() == junk.len() && d.gots.iter().all(|g| g.meta.stride == 1) => {
                         Attempt::Done(CaseOut::inconclusive("kernel accepted a 300-segment batch: fallback not provoked"))
                     }
+                    Ok(d) if d.gots.iter().map(|g| g.meta.len).sum::<usize>() == junk.len() => fail(
+                        "c19/segments-merged",
+                        format!("try_send returned Ok for a transmit of {} one-byte segments, but they arrived merged:{}", OVER_KERNEL_SEGMENTS, metas_brief(&d.gots)),
+                        v,
+                        p,
+                    ),
                     Ok(d) => Attempt::Missing(format!("try_send returned Ok for a {}-segment transmit but only {} bytes arrived", OVER_KERNEL_SEGMENTS, d.gots.iter().map(|g| g.meta.len).sum::<usize>())),
                     Err((sig, msg)) => fail(&sig, msg, v, p),
                 };
@@ -1041,6 +1048,95 @@ pub fn case_degraded(v: &Scenario) -> CaseOut {
 }
 
 // ---------------------------------------------------------------------------------------------
+// Foreign sender: a plain socket that marks its datagrams with a DSCP value next to the ECN bits
+// ---------------------------------------------------------------------------------------------
+
+/// `family`: 0 IPv4 -> IPv4 socket, 1 IPv6 -> IPv6 socket, 2 IPv4 -> dual-stack IPv6 socket
+#[derive(Debug, Clone, Serialize, Deserialize)]
+pub struct Foreign {
+    pub id: u64,
+    pub family: u8,
+    pub dscp: u8,
+    pub ecn: u8,
+    pub lens: Vec<u16>,
+}
+
+pub fn arb_foreign() -> impl Strategy<Value = Foreign> {
+    (any::<u64>(), 0u8..3, prop_oneof![2 => Just(0u8), 3 => proptest::sample::select(vec![8u8, 10, 18, 26, 34, 46, 48, 56, 63]), 2 => 0u8..64], 0u8..4, proptest::collection::vec(prop_oneof![1u16..64, 64u16..1452], 1..4))
+        .prop_map(|(id, family, dscp, ecn, lens)| Foreign { id, family, dscp, ecn, lens })
+}
+
+pub fn case_foreign(f: &Foreign) -> CaseOut {
+    let v4_sender = f.family != 1;
+    let rx_bind: SocketAddr = match f.family % 3 {
+        0 => (Ipv4Addr::LOCALHOST, 0).into(),
+        1 => (Ipv6Addr::LOCALHOST, 0).into(),
+        _ => (Ipv6Addr::UNSPECIFIED, 0).into(),
+    };
+    let rx = match mk_end(rx_bind, if f.family % 3 == 2 { Some(false) } else { None }) {
+        Ok(e) => e,
+        Err(e) => return CaseOut::inconclusive(format!("receiver socket: {e}")),
+    };
+    let tx_bind: SocketAddr = if v4_sender { (Ipv4Addr::LOCALHOST, 0).into() } else { (Ipv6Addr::LOCALHOST, 0).into() };
+    let tx = match mk_socket(tx_bind, None) {
+        Ok(s) => s,
+        Err(e) => return CaseOut::inconclusive(format!("sender socket: {e}")),
+    };
+    let tos = ((f.dscp as u32) << 2) | (f.ecn as u32 & 3);
+    let sref = socket2::SockRef::from(&tx);
+    let set = if v4_sender { sref.set_tos_v4(tos) } else { sref.set_tclass_v6(tos) };
+    if let Err(e) = set {
+        return CaseOut::inconclusive(format!("cannot set the traffic class: {e}"));
+    }
+    let dst: SocketAddr = if v4_sender { (Ipv4Addr::LOCALHOST, rx.local.port()).into() } else { (Ipv6Addr::LOCALHOST, rx.local.port()).into() };
+    let from = tx.local_addr().ok();
+    let want = EcnCodepoint::from_bits(f.ecn & 3);
+    for (i, len) in f.lens.iter().enumerate() {
+        let data = payload_bytes(f.id ^ i as u64, *len as usize);
+        match tx.send_to(&data, dst) {
+            Ok(n) if n == data.len() => {}
+            Ok(_) => return CaseOut::inconclusive("short send"),
+            Err(e) => return CaseOut::inconclusive(format!("send: {e}")),
+        }
+        let d = match drain(&rx, &[2048], data.len(), 1, 2, Duration::from_millis(300)) {
+            Ok(d) => d,
+            Err((sig, msg)) => return CaseOut::fail(sig, msg),
+        };
+        let Some(g) = d.gots.first() else {
+            return CaseOut::inconclusive("loopback datagram did not arrive within 300 ms");
+        };
+        let say = |what: String| format!("{what}; plain sender ({}) with traffic class {tos:#04x} = DSCP {} + ECN bits {:02b}, receiver bound to {rx_bind}", if v4_sender { "IPv4" } else { "IPv6" }, f.dscp, f.ecn & 3);
+        if g.data != data || g.meta.len != data.len() {
+            return CaseOut::fail("c19/payload", say(format!("datagram {i}: {} bytes sent, RecvMeta.len {} / {} bytes reported", data.len(), g.meta.len, g.data.len())));
+        }
+        if g.meta.ecn != want {
+            return CaseOut::fail("c19/ecn", say(format!("datagram {i}: RecvMeta.ecn is {:?}, the datagram carried {:?}", g.meta.ecn, want)));
+        }
+        if let Some(fr) = from {
+            let same = match (g.meta.addr.ip(), fr.ip()) {
+                (IpAddr::V6(a), IpAddr::V4(b)) => a.to_ipv4_mapped() == Some(b),
+                (a, b) => a == b,
+            };
+            if !same || g.meta.addr.port() != fr.port() {
+                return CaseOut::fail("c19/src-addr", say(format!("datagram {i}: RecvMeta.addr is {}, sent from {fr}", g.meta.addr)));
+            }
+        }
+    }
+    let mut labels = vec![match f.family % 3 {
+        0 => "v4",
+        1 => "v6",
+        _ => "v4-to-dual-stack",
+    }];
+    if f.dscp != 0 {
+        labels.push("dscp-set");
+    }
+    if f.ecn & 3 != 0 {
+        labels.push("ecn-set");
+    }
+    CaseOut { verdict: Verdict::Pass, labels, nontrivial: f.dscp != 0 && f.ecn & 3 != 0, summary: Some(json!({"family": f.family % 3, "dscp": f.dscp, "ecn": f.ecn & 3, "lens": f.lens})) }
+}
+
+// ---------------------------------------------------------------------------------------------
 // Generator
 // ---------------------------------------------------------------------------------------------
 
@@ -1384,6 +1480,14 @@ pub fn run(report: &Report) -> i32 {
         arb_scenario,
         report.cases(180_000, 5_400_000),
         case_degraded,
+    );
+    run_prop(
+        report,
+        "c19-foreign",
+        "datagrams from a plain socket whose traffic class carries a DSCP value next to the ECN bits (IPv4, IPv6, IPv4 into a dual-stack socket; DSCP 0..63; all four ECN values; 1-3 datagrams of 1..1452 bytes) received through quinn-udp: payload, length, source address and ECN codepoint as sent; non-trivial = DSCP and ECN both non-zero",
+        arb_foreign,
+        report.cases(40_000, 1_200_000),
+        case_foreign,
     );
     report.finish("generated-input search (proptest) over real loopback sockets plus an exhaustive enumeration of the option combinations; the unsupported-offload clause is covered only via the library's EINVAL fallback path")
 }
